@@ -46,10 +46,12 @@ extern "C" void vp_thread1() {
   bool r = m->try_get_value(Key(k), a);
   vp_assert(r == in[k], 110);
   if (r && in[k]) vp_assert(*a == k * 10, 111);
+#ifndef NO_TRAVERSAL
   int seen[NKEYS + 2]; for (int j = 0; j <= NKEYS + 1; ++j) seen[j] = 0;
   int cnt = 0;
   for (auto it = m->begin(); it != m->end(); ++it) { int kk = kv((*it).first); if (kk >= 1 && kk <= NKEYS + 1) seen[kk]++; if (++cnt > NKEYS + 2) break; }
   for (int j = 1; j <= NKEYS + 1; ++j) vp_assert(seen[j] == (in[j] ? 1 : 0), 120);
+#endif
   // the map stays usable: every bucket lock was released
   bool r2 = m->emplace(Key(NKEYS + 1), 7);
   vp_assert(r2 == !in[NKEYS + 1], 121);
